@@ -149,3 +149,74 @@ def sigops(ex, N, tail):
     script = ex.bytes("s", N) + bytes.fromhex(tail)
     got = sig_op_count(script)
     return {"same_count_as_core": got == _core_sigops(script)}
+
+
+# ------------------------------------------------------------------ P2WPKH (bare and P2SH-wrapped) through verify_input against Core's VerifyScript
+from btclib import hashes as _hashes
+from btclib.script.engine import verify_input
+from btclib.script.witness import Witness
+from btclib.tx.out_point import OutPoint
+from btclib.tx.tx import Tx
+from btclib.tx.tx_in import TxIn
+from btclib.tx.tx_out import TxOut
+from harness.c08_engine import _hashes_table
+
+_WIT_SHAPES = ("sig_key", "sig_only", "sig_key_extra", "empty", "empty_sig_key")
+_P2WPKH_FLAGS = {"consensus": ["P2SH", "WITNESS"], "standard": ["P2SH", "WITNESS", "STRICTENC", "DERSIG", "LOW_S", "NULLFAIL", "CLEANSTACK", "WITNESS_PUBKEYTYPE", "MINIMALDATA"],
+                 "no_witness": ["P2SH"]}
+
+
+@ob("C08", "p2wpkh_spend_rules_vs_core", quick=[dict(wrapped=w, shape=s, flags=f) for w in (0, 1) for s in _WIT_SHAPES for f in _P2WPKH_FLAGS],
+    bound="a P2WPKH output, bare and P2SH-wrapped, spent with a witness of two items (signature, key), one, three, none, or an empty signature with the key; the key's first byte symbolic (so its "
+          "hash160 may or may not be the program's; 02/03/04/other prefixes), the ECDSA verdict a symbolic boolean, three flag sets: verify_input gives Core's VerifyScript verdict",
+    stubs=["script.dsa_verify answers the symbolic verdict", "hash160 of a key with a symbolic byte is an uninterpreted function (equal to the program's only for the original key)"],
+    functions=["btclib.script.engine.verify_input", "btclib.script.engine._verify_witness_v0", "btclib.script.engine.script.op_checksig"], min_ok=1, timeout=300)
+def p2wpkh_rules(ex, wrapped, shape, flags):
+    fl = _P2WPKH_FLAGS[flags]
+    sflags = ScriptFlag(0)
+    for f in fl:
+        sflags |= ScriptFlag[f]
+    key0 = _KEYS[0]
+    program = _hashes.hash160(key0)
+    k0 = ex.int("key_prefix", 0, 255)
+    key = bytes([k0]) + key0[1:]
+    sig = _SIGS[0]
+    verdict = ex.bool("ecdsa_ok")
+    wstack = {"sig_key": [sig, key], "sig_only": [sig], "sig_key_extra": [b"\x01", sig, key], "empty": [], "empty_sig_key": [b"", key]}[shape]
+    redeem = b"\x00\x14" + program
+    spk = (b"\xa9\x14" + _hashes.hash160(redeem) + b"\x87") if wrapped else redeem
+    script_sig = core.push_of(redeem) if wrapped else b""
+    ex.stub(_escript.dsa_verify, lambda m, pk, s: bool(sand(verdict, sor(pk[0] == 2, pk[0] == 3))))
+
+    class S:
+        nullfail = "NULLFAIL" in fl
+        nulldummy = False
+
+        def sig_encoding_ok(self, s):
+            return True
+
+        def key_encoding_ok(self, k):
+            compressed = len(k) == 33 and bool(sor(k[0] == 2, k[0] == 3))
+            if "STRICTENC" in fl and not (compressed or (len(k) == 65 and bool(k[0] == 4))):
+                return False
+            if "WITNESS_PUBKEYTYPE" in fl and not compressed:
+                return False
+            return True
+
+        def check(self, s, k):
+            if len(s) == 0:
+                return False
+            return bool(sand(verdict, sor(k[0] == 2, k[0] == 3)))
+    tx = Tx(2, 0, [TxIn(OutPoint(b"\x01" * 32, 0, check_validity=False), script_sig, 0xFFFFFFFF, Witness(wstack, check_validity=False), check_validity=False)],
+            [TxOut(1000, b"\x51", check_validity=False)], check_validity=False)
+    try:
+        verify_input([TxOut(2000, spk, check_validity=False)], tx, 0, sflags)
+        lib_ok = True
+    except (ScriptError, BTClibValueError):
+        lib_ok = False
+    try:
+        core.verify_script(script_sig, spk, wstack, set(fl), _hashes.sha256, hashes=_hashes_table(), sigs=S())
+        ref_ok = True
+    except core.ScriptErr:
+        ref_ok = False
+    return {"same_verdict_as_core_VerifyScript": lib_ok == ref_ok}
